@@ -111,7 +111,10 @@ Inductive query : Type :=
 
 Inductive req : Type :=
 | ReqMain (c : content) (q : query)        (* the main file is given as text: never cached *)
-| ReqFromImport (m : modname).             (* "from m import |" *)
+| ReqFromImport (m : modname)              (* "from m import |" *)
+| ReqLocImport (c : content) (m : modname). (* go to definition on "import m|" below the text c: raises
+                                              ImportError when m cannot be found - after the star
+                                              imports of c have been resolved (assistant.py:65-91) *)
 
 Inductive ans : Type :=
 | ANames (l : list name)
@@ -312,6 +315,16 @@ Definition panswer (K : know) (d : disk) (f : nat) (rq : req) : option ans :=
       | None => None
       | Some false => Some AImportError
       | Some true => option_map (fun es => ANames (names_of es ++ children d m)) (pscope K f m)
+      end
+  | ReqLocImport c m =>
+      match pexpand K (pscope K f) c first_line with
+      | None => None
+      | Some _ =>
+          match k_ex K m with
+          | None => None
+          | Some false => Some AImportError
+          | Some true => Some (ALoc [(m, module_line)])
+          end
       end
   end.
 
@@ -645,6 +658,15 @@ Definition serve (f : nat) (d : disk) (st : state) (rq : req) : state * res ans 
           | OOF => (st2, OOF)
           | Err => (st2, Err)
           end
+      end
+  | ReqLocImport c m =>
+      let '(st1, r) := expand d (scope_of f d) st c first_line in
+      match r with
+      | Ok _ =>
+          let '(st2, og) := get_module d st1 m in
+          (st2, Ok (match og with Some _ => ALoc [(m, module_line)] | None => AImportError end))
+      | OOF => (st1, OOF)
+      | Err => (st1, Err)
       end
   end.
 
